@@ -62,7 +62,8 @@ type CrashScenario struct{}
 
 func (CrashScenario) Name() string { return "crash" }
 
-var crashIDs = []string{"1", "2", "s1", "s2", "s3"}
+// (p1 and b.a begin with characters of the store prefixes "pre." and "a.b.")
+var crashIDs = []string{"1", "2", "s1", "s2", "s3", "p1", "b.a"}
 
 func (CrashScenario) GenCase(r *rand.Rand, prop string) interface{} {
 	c := &CrashCase{Prefix: pick(r, "", "pre", "pre", "a.b")}
